@@ -9,7 +9,7 @@ EXPLANATION = ('Static rules: P-a the source of a ConnectableObservable is subsc
                'ShareOp::new); P-b connect(self) consumes the connectable (no Clone impl) and in ShareOp*::actual_subscribe it is reachable '
                'only after the state was replaced by Connected, all under the ShareOp cell guard, so the source is subscribed exactly once '
                'also with racing first subscribers; P-c the last leaver is no longer counted when RefCountSubscription asks '
-               'is_empty() (either the subject size counts live publishers only, or retain() runs first), so the source is released. '
+               'is_empty() (either the subject size counts live publishers only, or retain() runs first), so the source is released; P-d the subject size covers both the live and the waiting list. '
                'Does not decide join/leave histories beyond these rules; multicast itself is C06.')
 ASSUMPTIONS = []
 
@@ -120,6 +120,22 @@ def pc(cx):
                     live = any(x['kind'] == 'call' and x['name'] in ('subscriber::Publisher::p_is_closed',) for x in sg.nodes)
                     sizes.append((cx.label(sf), live))
         live_only = bool(sizes) and all(l for _, l in sizes)
+        # P-d: the size covers both lists (subscribers that joined since the last emission wait in the chamber)
+        for si in F.impls_of('subject::SubjectSize'):
+            stag = roles.impl_tag(cx, si)
+            if not stag.startswith('subject::') or 'behavior' in stag:
+                continue
+            for meth in ('is_empty', 'len'):
+                sf = F.impl_fn(si, meth)
+                sg = cx.graph(sf['key'])
+                lists = set()
+                for x in sg.nodes:
+                    if x['kind'] == 'call' and x['name'] in ('rc::RcDeref::rc_deref', 'rc::RcDerefMut::rc_deref_mut') and x['args']:
+                        lists.add(recv_class(x['args'][0]).split('.')[-1])
+                okl = {'observers', 'chamber'} <= lists
+                res.append(Finding(ID, 'P-d', cx.label(sf), okl, 'counts the live list and the waiting list' if okl else
+                                   'the subject size ignores %s: a subscriber that joined since the last emission is not counted, so share() releases its source while that subscriber is still there' % sorted({'observers', 'chamber'} - lists),
+                                   sf['span']))
         order = lang_check(g, 'leave retain? count', ev, exact=True, empty_ok=False)
         ok = (retain_first or live_only) and not order
         res.append(Finding(ID, 'P-c', label, ok,
